@@ -112,6 +112,7 @@ class Repo:
         self.consulted = {}
         self._shipped = None
         self._class_index = None
+        self.cache = {}   # free slot for rule modules (per-function analysis contexts etc.)
 
     # ---------------------------------------------------------------- loading
     def exists(self, rel):
@@ -136,6 +137,22 @@ class Repo:
             m = self._mods[rel] = Module(rel, s)
             self.consulted[rel] = hashlib.sha256(s.encode()).hexdigest()[:16]
         return m
+
+    def cfg(self, fn):
+        """Memoised statement CFG of a Func."""
+        from . import cfg as _cfg
+        k = ('cfg', fn.rel, fn.qualname, id(fn.node))
+        if k not in self.cache:
+            self.cache[k] = _cfg.build(fn)
+        return self.cache[k]
+
+    def rdefs(self, fn):
+        """Memoised reaching definitions of a Func."""
+        from . import cfg as _cfg
+        k = ('rd', fn.rel, fn.qualname, id(fn.node))
+        if k not in self.cache:
+            self.cache[k] = _cfg.ReachingDefs(self.cfg(fn))
+        return self.cache[k]
 
     def func(self, rel, qualname):
         f = self.module(rel).funcs.get(qualname)
